@@ -42,6 +42,7 @@ type seqState struct {
 	kept     []retained
 	opN      int
 	inNil    bool
+	quiet    bool // scripted history: no nested operations, no panics
 	reported map[string]bool
 }
 
@@ -112,6 +113,13 @@ func (s *seqState) install() {
 			}
 			count("callbacks_checked", 1)
 			// the call must already be recorded and be the last record
+			if s.quiet {
+				// scripted history: the callback does not read the accessor (a read is an operation of its own)
+				if p.panicVal != nil {
+					panic(p.panicVal)
+				}
+				return p.results
+			}
 			recs := s.in.calls(m.Name).Call(nil)[0]
 			want := s.model[m.Name]
 			if recs.Len() != len(want) {
@@ -120,7 +128,7 @@ func (s *seqState) install() {
 				s.viol("C04", m.Name, fmt.Sprintf("inside %sFunc: the last record of %sCalls() is not the current call", m.Name, m.Name))
 			}
 			// now and then the callback itself uses the mock
-			if s.depth < 2 && s.rng.Intn(4) == 0 {
+			if !s.quiet && s.depth < 2 && s.rng.Intn(4) == 0 {
 				s.depth++
 				for k := 0; k < 1+s.rng.Intn(2); k++ {
 					s.randomOp(true)
@@ -188,11 +196,22 @@ func (s *seqState) doCall(m method, nilFunc bool) {
 	if m.Variadic && s.rng.Intn(4) == 0 {
 		args[n-1] = reflect.Zero(m.Sig.In(n - 1)) // nil variadic tail
 	}
+	for i := 0; i < n; i++ {
+		if nilable(m.Sig.In(i)) && s.rng.Intn(8) == 0 {
+			args[i] = reflect.Zero(m.Sig.In(i)) // nil slices, maps, pointers, interfaces, funcs and chans are values too
+			count("nil_arguments_passed", 1)
+		}
+	}
 	p := &pending{method: m.Name, args: args, gid: isync.GID(), nilFunc: nilFunc}
 	for i := 0; i < m.Sig.NumOut(); i++ {
+		if nilable(m.Sig.Out(i)) && s.rng.Intn(4) == 0 {
+			p.results = append(p.results, reflect.Zero(m.Sig.Out(i))) // whatever MFunc returns, nil included, is what the caller must see
+			count("nil_results_returned", 1)
+			continue
+		}
 		p.results = append(p.results, synth(m.Sig.Out(i), nextToken(), 0))
 	}
-	if !nilFunc && s.rng.Intn(6) == 0 {
+	if !nilFunc && !s.quiet && s.rng.Intn(6) == 0 {
 		p.panicVal = &panicValue{tok: nextToken()}
 	}
 	var savedField reflect.Value
@@ -296,6 +315,45 @@ func (s *seqState) doCall(m method, nilFunc bool) {
 	}
 }
 
+func nilable(t reflect.Type) bool {
+	switch t.Kind() {
+	case reflect.Slice, reflect.Map, reflect.Pointer, reflect.Interface, reflect.Func, reflect.Chan:
+		return true
+	}
+	return false
+}
+
+// aroundReset is a scripted history: k calls, a read, a reset, exactly k further calls, a read. Records of
+// equal number before and after a reset are the case a length-validated cache or a reused backing array gets wrong.
+func (s *seqState) aroundReset(global bool) {
+	m := s.method()
+	k := 1 + s.rng.Intn(3)
+	s.quiet = true
+	defer func() { s.quiet = false }()
+	for i := 0; i < k; i++ {
+		s.opN++
+		s.doCall(m, false)
+	}
+	s.opN++
+	s.doRead(m)
+	s.opN++
+	// no read between the reset and the next calls
+	if global {
+		s.doResetOpt("", false)
+	} else {
+		s.doResetOpt(m.Name, false)
+	}
+	for i := 0; i < k; i++ {
+		s.opN++
+		s.doCall(m, false)
+	}
+	s.opN++
+	s.log("read %sCalls (same number of calls as before the reset)", m.Name)
+	s.checkOne(m.Name, "C04", "read after a reset and as many calls as before it")
+	s.verifyKept()
+	count("around_reset_scripts", 1)
+}
+
 // resync adopts the mock's own record count after an aborted operation.
 func (s *seqState) resync(m string) {
 	func() {
@@ -376,7 +434,11 @@ func (s *seqState) verifyKept() {
 	}
 }
 
-func (s *seqState) doReset(m string) {
+func (s *seqState) doReset(m string) { s.doResetOpt(m, true) }
+
+// doResetOpt resets and, unless told otherwise, reads every accessor back at once (a read right after the reset is
+// itself an operation: histories that must not contain it pass check=false and compare later).
+func (s *seqState) doResetOpt(m string, check bool) {
 	name := "ResetCalls"
 	if m != "" {
 		name = "Reset" + m + "Calls"
@@ -404,7 +466,9 @@ func (s *seqState) doReset(m string) {
 			s.model[k] = nil
 		}
 	}
-	s.checkAll("C08", "after "+name+"()")
+	if check {
+		s.checkAll("C08", "after "+name+"()")
+	}
 }
 
 // runSeq runs sequential histories against the list model.
@@ -412,6 +476,10 @@ func runSeq(e Entry, rng *rand.Rand, ops, rounds int) {
 	for r := 0; r < rounds; r++ {
 		in, problems := newInstance(e)
 		for _, p := range problems {
+			if strings.HasPrefix(p, "C04:") {
+				violation("C04", e.Name, "", p[4:], nil)
+				continue
+			}
 			violation("C02", e.Name, "", p, nil)
 		}
 		s := &seqState{in: in, rng: rng, model: map[string][]callRec{}, reported: map[string]bool{}}
@@ -428,6 +496,10 @@ func runSeq(e Entry, rng *rand.Rand, ops, rounds int) {
 		// the zero-value mock reports no calls
 		s.checkAll("C04", "zero-value mock")
 		s.install()
+		if e.Resets && len(in.methods) > 0 {
+			s.aroundReset(r%2 == 0)
+			s.aroundReset(r%2 == 1)
+		}
 		for i := 0; i < ops; i++ {
 			s.randomOp(false)
 			if held := isync.Held(isync.GID()); len(held) > 0 {
